@@ -71,55 +71,10 @@ func Shuffle(r *rand.Rand, a []interface{}) {
 }
 
 // Subterms lists every value occurring in x (including x), de-duplicated by canon.
-func Subterms(x interface{}) []interface{} {
-	seen := map[string]bool{}
-	var out []interface{}
-	var walk func(v interface{})
-	walk = func(v interface{}) {
-		c := fw.Canon(v)
-		if !seen[c] {
-			seen[c] = true
-			out = append(out, v)
-		}
-		switch t := v.(type) {
-		case map[string]interface{}:
-			for _, e := range t {
-				walk(e)
-			}
-		case []interface{}:
-			for _, e := range t {
-				walk(e)
-			}
-		}
-	}
-	walk(x)
-	return out
-}
+func Subterms(x interface{}) []interface{} { return fw.Subterms(x) }
 
 // MapKeys lists every map key occurring anywhere in x, de-duplicated.
-func MapKeys(x interface{}) []string {
-	seen := map[string]bool{}
-	var out []string
-	var walk func(v interface{})
-	walk = func(v interface{}) {
-		switch t := v.(type) {
-		case map[string]interface{}:
-			for k, e := range t {
-				if !seen[k] {
-					seen[k] = true
-					out = append(out, k)
-				}
-				walk(e)
-			}
-		case []interface{}:
-			for _, e := range t {
-				walk(e)
-			}
-		}
-	}
-	walk(x)
-	return out
-}
+func MapKeys(x interface{}) []string { return fw.MapKeys(x) }
 
 // Depth of a JSON value.
 func Depth(x interface{}) int {
